@@ -7,7 +7,7 @@ Ref = z3.DeclareSort('Ref')
 Str = z3.DeclareSort('Str')
 NULL = z3.Const('null', Ref)
 STR_NONE = z3.Const('str_none', Str)      # representation of None inside Optional[str]
-STR_EMPTY = z3.Const("str''", Str)        # the literal ''
+STR_EMPTY = z3.Const('str_empty', Str)        # the literal ''
 str_rank = z3.Function('str_rank', Str, z3.IntSort())   # injective rank giving the lexicographic order of str
 class_of = z3.Function('class_of', Ref, z3.IntSort())   # dynamic class id of an object reference
 
@@ -286,6 +286,29 @@ class SymSet:
         self.arr, self.ety = arr, ety
 
 
+class FnChi:
+    """characteristic function of a set given by a defining formula over a z3 variable (no array, no axiom);
+    indexing substitutes; to_array() materialises it when an array term is really needed"""
+
+    def __init__(self, eng, var, body):
+        self.eng, self.var, self.body = eng, var, body
+        self._arr = None
+
+    def __getitem__(self, x):
+        if self._arr is not None:
+            return self._arr[x]
+        return z3.substitute(self.body, (self.var, x))
+
+    def to_array(self):
+        if self._arr is None:
+            self._arr = self.eng.def_array([self.var], self.body)
+        return self._arr
+
+
+def as_array(chi):
+    return chi.to_array() if isinstance(chi, FnChi) else chi
+
+
 class GenV:
     def __init__(self, node, frame):
         self.node, self.frame = node, frame
@@ -479,7 +502,7 @@ def _verdict(r):
 
 
 class Budget:
-    feas_ms = 3000
+    feas_ms = 60
     obl_ms = 10000
 
 
@@ -495,6 +518,8 @@ class PathRunner:
         self.solver_seconds = 0.0
         self.queries = 0
         self.unknown_feas = 0
+        self.refuted_names = set()
+        self.str_consts = []
 
     # ---- per path
     def start_path(self, decisions):
@@ -520,8 +545,12 @@ class PathRunner:
         self.solver.pop()
         n = self.scopes.pop()
         keep = [t for t in self.pc[n:] if t.get_id() in self.persistent]
+        for t in self.pc[n:]:
+            self.persistent.discard(t.get_id())    # ids of collected terms are recycled by z3
         del self.pc[n:]
         for t in keep:
+            if self.scopes:
+                self.persistent.add(t.get_id())
             self.pc.append(t)
             self.solver.add(t)
 
@@ -587,24 +616,36 @@ class PathRunner:
         key = (name, self.prefix())
         if key in self.obligations:
             return self.obligations[key].verdict == 'discharged'
+        if not isinstance(claim, bool) and z3.is_and(claim) and claim.num_args() > 1 and '#' not in name[-4:]:
+            ok = True
+            for i, ch in enumerate(claim.children()):
+                ok = self.oblige(f'{name}#{i}', kind, ch, line, detail, model_probe) and ok
+            return ok
         t0 = time.time()
         model = None
-        if isinstance(claim, bool):
-            if claim:
-                verdict, backend = 'discharged', 'trivial'
-            else:
-                r = self._check(timeout=self.budget.obl_ms)
-                verdict = _verdict(r)
-                backend = 'z3'
-                if r == z3.sat and model_probe:
-                    model = model_probe(self.solver.model())
+        if isinstance(claim, bool) and claim:
+            verdict, backend = 'discharged', 'trivial'
         else:
+            if isinstance(claim, bool):
+                claim = z3.BoolVal(False)
             neg = z3.Not(claim)
-            r = self._check(neg, timeout=self.budget.obl_ms)
+            # staged budget: discharges normally take milliseconds; the slow cases are satisfiable queries with
+            # quantifiers, for which a bounded-universe search is tried before the full budget is spent
+            r = self._check(neg, timeout=min(1500, self.budget.obl_ms))
             backend = 'z3'
             if r == z3.unknown:
-                r, backend = self._second_opinion(neg)
+                r, backend, model = self._bounded_refute(neg, model_probe)
+            if r == z3.unknown:
+                if name in self.refuted_names:
+                    backend = 'z3 (budget cut: same obligation already refuted on another path)'
+                else:
+                    r = self._check(neg, timeout=self.budget.obl_ms)
+                    backend = 'z3'
+                    if r == z3.unknown:
+                        r, backend = self._second_opinion(neg)
             verdict = _verdict(r)
+            if r == z3.sat:
+                self.refuted_names.add(name)
             if r == z3.sat and model_probe and backend == 'z3':
                 try:
                     model = model_probe(self.solver.model())
@@ -616,6 +657,30 @@ class PathRunner:
             ob.smt2 = self._smt2(claim)
         self.obligations[key] = ob
         return verdict == 'discharged'
+
+    def _bounded_refute(self, neg, model_probe):
+        """z3 answered unknown (quantifiers on the satisfiable side): finite-universe counter-model search, see
+        finite.py. sat is a genuine model of pc and not claim; anything else decides nothing."""
+        from . import finite
+        t0 = time.time()
+        try:
+            for es, er in ((1, 2), (2, 5)):
+                try:
+                    r, m, info = finite.refute(self.pc, neg, es, er, 3000, self.str_consts)
+                except z3.Z3Exception as e:
+                    return z3.unknown, 'z3', None
+                if r == z3.sat:
+                    model = None
+                    if model_probe:
+                        try:
+                            model = model_probe(m)
+                        except z3.Z3Exception:
+                            model = None
+                    self.last_model = m
+                    return z3.sat, f'z3 ({info})', model
+            return z3.unknown, 'z3', None
+        finally:
+            self.solver_seconds += time.time() - t0
 
     def _smt2(self, claim):
         s = z3.Solver()
